@@ -112,11 +112,8 @@ def run_config(chk, config):
                   {"obligation": "DataMessage::write layout in configuration %s" % cname, "tokens": layout.fmt_tokens(wt)})
         if provs != exp:
             continue
-        offsets = {}
-        o = 0
-        for t in ints:
-            offsets[o] = t
-            o += t["n"].c
+        # the fixed part of the encoder output, octet by octet (which bits of which field / which constant)
+        wocts = layout.writer_octets(engw, ws, [t for t in wt if t["k"] != "patch"])
         # decoder paths under the layout constraints
         base = list(ws.cons)
         base.append(c_le(Lin.const(1), d))                          # non-empty payload
@@ -135,17 +132,25 @@ def run_config(chk, config):
             pairs = {}
             for t in rt:
                 if t["k"] == "read" and isinstance(pos, int):
-                    w = offsets.get(pos)
-                    if w is None or w["n"].c != t["n"].c:
+                    # whatever width the decoder reads here, it gets the big-endian value of the octets the encoder
+                    # put at these positions; fields the decoder carves out of a wider read get theirs
+                    wn = t["n"].c
+                    seg = wocts[pos:pos + wn]
+                    want = layout.compose_octets(engr, rs, seg) if len(seg) == wn else None
+                    if want is None:
                         aligned = False
                         break
                     sym = t["val"].lin
-                    if w["prov"][0] == "const":
-                        extra.append(c_eq(sym, Lin.const(w["prov"][1])))
-                    else:
-                        extra.append(c_eq(sym, Lin.sym(w["prov"][1])))
-                        pairs[w["prov"][1]] = sym
-                    pos += t["n"].c
+                    extra.append(c_eq(sym, want))
+                    xs = next(iter(sym.t)) if len(sym.t) == 1 else None
+                    for nm in list(layout._divdefs(rs)):
+                        sp = layout.bitspan(engr, rs, Lin.sym(nm))
+                        if sp is not None and sp[0] == xs and sp[1] % 8 == 0 and sp[2] % 8 == 0 and sp[1] + sp[2] <= 8 * wn:
+                            a0 = pos + wn - (sp[1] + sp[2]) // 8
+                            sub = layout.compose_octets(engr, rs, wocts[a0:a0 + sp[2] // 8])
+                            if sub is not None:
+                                extra.append(c_eq(Lin.sym(nm), sub))
+                    pos += wn
                 else:
                     pos = None
             # flag bits of this decoder path vs the emitted flag word
@@ -191,8 +196,8 @@ def run_config(chk, config):
 
             def same(path, wname):
                 v = lv.get(path)
-                want = pairs.get(wname)
-                if not (isinstance(v, VInt) and want is not None and layout.conj_entails(engr, rs, extra, c_eq(v.lin, want))):
+                want = Lin.sym(wname)
+                if not (isinstance(v, VInt) and layout.conj_entails(engr, rs, extra, c_eq(v.lin, want))):
                     problems.append("%s is not the value read where the encoder writes %s (got %r)" % (path, wname, v))
             same(".tunnel_id", "self.*.Data.0.tunnel_id")
             same(".session_id", "self.*.Data.0.session_id")
